@@ -157,6 +157,21 @@ func c18(w *core.World, r *core.Report) {
 		tgt, isConst := "", false
 		if len(args) == 2 {
 			tgt, isConst = core.ConstString(args[0])
+			if !isConst {
+				// the datastore name reaches the driver through a helper parameter or a field of a small adapter
+				// struct built in this function: all its origins, seen from this function, are one constant
+				core.WithHost(fn, func() {
+					os := core.Origins(args[0])
+					for i, o := range os {
+						sv, ok := core.ConstString(o)
+						if !ok || (i > 0 && sv != tgt) {
+							tgt, isConst = "", false
+							return
+						}
+						tgt, isConst = sv, true
+					}
+				})
+			}
 		}
 		r.Check(isConst && tgt == tc.target, "TYPESTATE", core.Site(fn, "EditConfig target"), w.InstrPos(edit), fmt.Sprintf("edit-config must address the %q datastore (found %q)", tc.target, tgt))
 		r.Check(!core.OnCycle(edit), "TYPESTATE", core.Site(fn, "EditConfig once"), w.InstrPos(edit), "edit-config must not be repeated (call on a CFG cycle)")
@@ -166,7 +181,9 @@ func c18(w *core.World, r *core.Report) {
 			if !core.CalleeIs(c, drvMutating...) {
 				continue
 			}
-			r.Check(guardedByNonEmptyDoc(c), "TYPESTATE", core.Site(fn, "%s only for non-empty document", core.CalleeKey(c)), w.InstrPos(c), "nothing is sent when there is no change: the call must be reachable only after len(xdoc)==0 was tested false")
+			okNonEmpty := false
+			core.WithHost(fn, func() { okNonEmpty = guardedByNonEmptyDoc(c) })
+			r.Check(okNonEmpty, "TYPESTATE", core.Site(fn, "%s only for non-empty document", core.CalleeKey(c)), w.InstrPos(c), "nothing is sent when there is no change: the call must be reachable only after len(xdoc)==0 was tested false")
 		}
 		// document sent is the one rendered with onlyNewOrUpdated = true
 		if len(args) == 2 {
